@@ -325,5 +325,6 @@ TRUSTED = ['constants of each configuration are read from the Rust code by the h
 ASSUMPTIONS = ['harness built with debug assertions and overflow checks (profile dev): debug_assert!/usize underflow are panics',
                'SQRT_PRECOMP is always Some for the compiled configurations']
 
+
 # pinned theorems that instantiate this package's abstract-field theorems at the executed ZpOps dictionary
-EXTRA_PROP_FILES = ['Bridge']
+EXTRA_PROP_FILES = ['Bridge', 'Bridge2']
